@@ -273,29 +273,33 @@ def tbl_inv(name):
 
 # ---------------------------------------------------------------- the two index structures: DefaultList(list) of index rows
 # DefaultList[List[int]] (rules pumping a class) and DefaultList[List[Tuple[int, int]]] (rules using a class): same real source
-# as the histogram's DefaultList[int], but the default factory allocates a NEW empty list per missing position.  The generic
-# `extend(<factory() for _ in range(n)>)` is outside what the engine allocates in bulk from a stored factory, so __getitem__ and
-# __setitem__ of these two instantiations are summaries (trusted); the int instantiation of the same code is verified above.
+# as the histogram's DefaultList[int], but the default factory allocates a NEW empty list per missing position
+# (call model "<new list>" for `self._default_factory()` inside the extend of _increase_list_len: bulk allocation).
 Pair = Tup(Int, Int)
+_ROWS_GROW = ["len(self._list) >= old(len(self._list))",
+              "forall(lambda i: implies(0 <= i and i < old(len(self._list)), same(self._list[i], old(self._list[i]))))",
+              "forall(lambda i: implies(old(len(self._list)) <= i and i < len(self._list), fresh(self._list[i]) and len(self._list[i]) == 0))"]
 for _nm, _row in (("DefaultListIdx", List(Int)), ("DefaultListPairs", List(Pair))):
     klass(F, _nm, fields={"_list": List(_row)}, iter_delegate="_list",
-          # every position has a row of its own
-          invariant=["forall(lambda i, j: implies(0 <= i and i < j and j < len(self._list), not same(self._list[i], self._list[j])))"])
+          # every position has a row of its own, and every row is an existing list
+          invariant=["forall(lambda i, j: implies(0 <= i and i < j and j < len(self._list), not same(self._list[i], self._list[j])))",
+                     "forall(lambda i: implies(0 <= i and i < len(self._list), allocated(self._list[i])))"])
     contract(F, _nm + ".__init__", source="DefaultList.__init__", props=["C03"], self_invariant=False, lenient=True,
              params={"self": Obj(_nm), "default_factory": Opaque("Any")},
              ensures=["len(self._list) == 0", "fresh(self._list)", "wf(self)"], modifies=["*self"])
-    contract(F, _nm + ".__getitem__", source="DefaultList.__getitem__", props=["C03"], verify=False, aliases={"Pair": Pair},
-             trusted_reason="DefaultList(list).__getitem__: the row at `key`; missing positions up to `key` are filled with new, "
-                            "empty, pairwise distinct lists; existing rows keep their identity and content",
+    contract(F, _nm + "._increase_list_len", source="DefaultList._increase_list_len", props=["C03"], aliases={"Pair": Pair},
+             params={"self": Obj(_nm), "key": Int}, call_models={"self._default_factory": "<new list>"},
+             ensures=["len(self._list) == ite(key >= old(len(self._list)), key + 1, old(len(self._list)))"] + _ROWS_GROW,
+             modifies=["*self._list"],
+             notes="missing positions up to `key` are filled with new, empty, pairwise distinct lists (the default factory is `list`)")
+    contract(F, _nm + ".__getitem__", source="DefaultList.__getitem__", props=["C03"], aliases={"Pair": Pair},
              params={"self": Obj(_nm), "key": Int}, returns=_row, requires=["key >= 0"],
-             ensures=["len(self._list) > key", "len(self._list) >= old(len(self._list))", "same(result, self._list[key])",
-                      "forall(lambda i: implies(0 <= i and i < old(len(self._list)), same(self._list[i], old(self._list[i]))))",
-                      "forall(lambda i: implies(old(len(self._list)) <= i and i < len(self._list), fresh(self._list[i]) and len(self._list[i]) == 0))",
-                      "forall(lambda i, j: implies(old(len(self._list)) <= i and i < j and j < len(self._list), not same(self._list[i], self._list[j])))"],
-             modifies=["*self._list"])
+             ensures=["len(self._list) > key", "same(result, self._list[key])"] + _ROWS_GROW,
+             modifies=["*self._list"],
+             notes="the row at `key`; existing rows keep their identity and content")
     contract(F, _nm + ".__setitem__", source="DefaultList.__setitem__", props=["C03"], aliases={"Pair": Pair},
              params={"self": Obj(_nm), "key": Int, "value": _row},
-             requires=["0 <= key", "key < len(self._list)",
+             requires=["0 <= key", "key < len(self._list)", "allocated(value)",
                        "forall(lambda i: implies(0 <= i and i < len(self._list) and i != key, not same(self._list[i], value)))"],
              ensures=["len(self._list) == old(len(self._list))", "same(self._list[key], value)",
                       "forall(lambda i: implies(0 <= i and i < len(self._list) and i != key, same(self._list[i], old(self._list[i]))))"],
